@@ -101,8 +101,8 @@ def judge(case, backends):
     Sx = tol.seg_scale(x0, starts, L, w, order)
     Sy = Sx if y0 is None else tol.seg_scale(y0, starts, L, w, order)
     Sxy = (Sx ** 0.5 * Sy ** 0.5)
-    bx, by, bxy = tol.budget2(L, om, Sx), tol.budget2(L, om, Sy), tol.budget2(L, om, Sxy)
-    b4 = tol.budget4(L, om, Sx, Sy)
+    bx, by, bxy = tol.budget2(L, om, Sx, K), tol.budget2(L, om, Sy, K), tol.budget2(L, om, Sxy, K)
+    b4 = tol.budget4(L, om, Sx, Sy, K)
     viol, got, worst = [], {}, 0.0
     seq = list(backends) if not case.get("reverse") else list(backends)[::-1]
     seq = seq + [seq[0] + "#again"]
@@ -225,7 +225,7 @@ def oracle_api(case):
         Sx = tol.seg_scale(x, D, L, w, cfg['order'])
         Sy = Sx if y is None else tol.seg_scale(y, D, L, w, cfg['order'])
         Sxy = (Sx ** 0.5 * Sy ** 0.5)
-        bx, by, bxy, b4 = tol.budget2(L, om, Sx), tol.budget2(L, om, Sy), tol.budget2(L, om, Sxy), tol.budget4(L, om, Sx, Sy)
+        bx, by, bxy, b4 = tol.budget2(L, om, Sx, len(D)), tol.budget2(L, om, Sy, len(D)), tol.budget2(L, om, Sxy, len(D)), tol.budget4(L, om, Sx, Sy, len(D))
         XY = complex(res.XY[j])
         for name, a, b, bud in (("XX", float(res.XX[j]), ref["XX"], bx), ("YY", float(res.YY[j]), ref["YY"], by),
                                 ("ReXY", XY.real, ref["XY"].real, bxy), ("ImXY", XY.imag, ref["XY"].imag, bxy),
